@@ -220,6 +220,19 @@ func headInts(a []int, n int) []int {
 func replayEpochs(prop string, oracles oracleSet) func(c *Ctx, rp *Replay) (bool, string) {
 	return func(c *Ctx, rp *Replay) (bool, string) {
 		sc := scenarioFromParams(rp.Params)
+		if prop == "C02" {
+			// the check keeps one executor value for all runs of a process: give the replayed run a predecessor
+			// with other options (another population size)
+			shareExecutors()
+			other := EpochScenario{Seed: "xor", Cfg: 2, Fit: 2, Policy: "M", Mode: sc.Mode, Epochs: 2}
+			if sc.Cfg == 2 {
+				other.Cfg = 0
+			}
+			pre := &Explorer{Policy: parsePolicy("M"), Horizon: 400000}
+			pre.Body = func(x *Exec) { runEpochBody(newCtx(c.ID, c.Tier, c.Level), other, 0, x, map[string]int64{}) }
+			pre.OnPanic = func(x *Exec, r interface{}, stack string) {}
+			pre.RunOne(nil)
+		}
 		ex := &Explorer{Policy: parsePolicy(sc.Policy), Horizon: 10 * (len(rp.Answers) + 1000)}
 		cnt := map[string]int64{}
 		var pan interface{}
